@@ -43,8 +43,8 @@ pub fn message_class(norm: &str) -> String {
         s.truncate(j);
         s.push_str(&payload);
     }
-    // todo!() / unimplemented!() with a Debug rendering of the offending value
-    for key in ["not yet implemented", "not implemented"] {
+    // todo!() / unimplemented!() with a Debug rendering of the offending value; str slicing errors quote the string
+    for key in ["not yet implemented", "not implemented", "is not a char boundary"] {
         if let Some(i) = s.find(key) {
             s.truncate(i + key.len());
         }
